@@ -100,6 +100,7 @@ paths:
       parameters:
         - {name: n, in: query, required: false, schema: {type: integer}}
         - {name: ck, in: cookie, required: false, schema: {type: integer}}
+        - {name: when, in: query, required: false, content: {application/json: {schema: {type: object, properties: {a: {type: integer}}}}}}
         - {name: mp, in: query, required: false, style: form, explode: false, schema: {type: object, additionalProperties: {type: integer}}}
         - {name: X-Mp, in: header, required: false, schema: {type: object, additionalProperties: {type: integer}}}
       requestBody:
@@ -260,6 +261,11 @@ func matrixRequests() []Req {
 	r = f("param", "", "user=alice", "map-typed header parameter with an ill-typed value")
 	r.Header["X-Mp"] = []string{"a,b"}
 	add(r)
+	add(f("malformed_optional_pair", "n=%zz", "user=alice", "optional query parameter with a malformed escape"))
+	add(f("malformed_optional_pair", "n=1;x=2", "user=alice", "optional query parameter in a pair containing ';'"))
+	add(f("valid", "when=%7B%22a%22%3A1%7D", "user=alice", "JSON content parameter"))
+	add(f("param", "when=%7B%22a%22%3A", "user=alice", "truncated JSON content parameter"))
+	add(f("content_param_trailing", "when=%7B%22a%22%3A1%7Dgarbage", "user=alice", "JSON content parameter followed by garbage"))
 	r = f("valid", "", "user=alice&age=3", "valid form of unknown length (chunked)")
 	r.NoLength = true
 	add(r)
@@ -618,7 +624,7 @@ func Check(r *core.Run) error {
 		go func(c [2]int) {
 			sem <- struct{}{}
 			defer func() { <-sem }()
-			vs, err := obs.Check(r, lines[c[0]:c[1]], obs.CheckOpts{Module: "ServerPipelineCheck", Cfg: obs.StdCfg(), ChunkSize: c[1] - c[0] + 1, Parallel: 1})
+			vs, err := obs.Check(r, lines[c[0]:c[1]], obs.CheckOpts{Module: "ServerPipelineCheck", Cfg: obs.StdCfg("KnownDeviations = " + r.KnownSet()), ChunkSize: c[1] - c[0] + 1, Parallel: 1})
 			resCh <- result{vs, c[0], err}
 		}(c)
 	}
@@ -633,7 +639,7 @@ func Check(r *core.Run) error {
 		for _, l := range tr {
 			ls = append(ls, []byte(l))
 		}
-		vs, err := obs.Check(r, ls, obs.CheckOpts{Module: "ServerPipelineCheck", Cfg: obs.StdCfg(), Parallel: 1})
+		vs, err := obs.Check(r, ls, obs.CheckOpts{Module: "ServerPipelineCheck", Cfg: obs.StdCfg("KnownDeviations = {}"), Parallel: 1})
 		if err != nil {
 			return err
 		}
@@ -655,6 +661,10 @@ func Check(r *core.Run) error {
 			}
 			seen[rf] = true
 			rq := jobs[rf.job].Reqs[rf.req]
+			if strings.HasPrefix(v.Kind, "known=") {
+				r.KnownHit(strings.TrimPrefix(v.Kind, "known="), fmt.Sprintf("package %s, %s request (%s) %s", jobs[rf.job].Pkg, rq.Cls, rq.Note, describe(rq)))
+				continue
+			}
 			r.Violate(fmt.Sprintf("package %s, %s request (%s) %s: trace rejected by spec/ServerPipeline.tla: %s", jobs[rf.job].Pkg, rq.Cls, rq.Note, describe(rq), v.Kind),
 				map[string]any{"pkg": jobs[rf.job].Pkg, "request": rq, "verdict": v.Kind})
 		}
